@@ -13,6 +13,18 @@ from common import run_driver, VERIF
 from props.scalarfam import new_stats, finish, budget, run_oracle, oracle, fail, replay  # noqa: F401
 
 
+# tower names in CONFIGURATION order that are neither in ascending string order nor in ascending numeric order ("T10" < "T2" as strings)
+TN = [7, 10, 2, 31, 4, 12, 1, 5, 22, 3]
+
+
+def tname(k):
+    return "T%d" % TN[k]
+
+
+def tindex(name):
+    return TN.index(int(name[1:]))
+
+
 def make_raw(case):
     nt, ns = case["towers"], case["steps"]
     rng = np.random.default_rng(case["cseed"])
@@ -39,7 +51,7 @@ def make_raw(case):
     elif tk == "duplicate":     # a repeated label (e.g. the DST fall-back hour)
         met["timestamps"] = ["2024-10-27T02:30"] * ns
     # towers of one height at different places (a transect of identical masts) or of different heights
-    towers = [dict(name="T%d" % k, lat=50.0 + 1e-4 * (k + 1), lon=11.0 + 2e-4 * (k + 1), z_m=3.0 + (0.0 if case.get("same_height") else 0.7 * k)) for k in range(nt)]
+    towers = [dict(name=tname(k), lat=50.0 + 1e-4 * (k + 1), lon=11.0 + 2e-4 * (k + 1), z_m=3.0 + (0.0 if case.get("same_height") else 0.7 * k)) for k in range(nt)]
     dom = dict(nx=8, ny=8, xmax=80.0, ymax=80.0, nz=4, modes=[8, 8], halo=20.0, ref_lat=50.0, ref_lon=11.0)
     if case.get("no_ref"):
         # a configuration without a reference origin: the towers' lat/lon are carried along but every tower sits at the local origin
@@ -98,7 +110,7 @@ orig = itf.run_bldfm_single
 def delayed(config, tower, met_index=0, surface_flux=None, cache=None):
     time.sleep(C14.task_delay(case, tower.name, met_index))
     flt = case.get("fault")
-    if flt and tower.name == "T" + str(flt[0]) and met_index == flt[1]:
+    if flt and tower.name == C14.tname(flt[0]) and met_index == flt[1]:
         # a transient fault in ONE task (a worker colliding on a cache / wisdom file): the first attempt at this (tower, step) raises,
         # exactly once across all processes (O_EXCL marker file)
         try:
@@ -134,7 +146,7 @@ def task_delay(case, tower_name, step):
     (seed, tower, step); "reverse": later steps (and later towers) finish first; "perm": the tasks finish in a chosen
     permutation (seeded); with at least as many workers as tasks the completion order is exactly the chosen one"""
     nt, ns = case["towers"], case["steps"]
-    k = int(tower_name[1:])
+    k = tindex(tower_name)
     order = case.get("order", "hash")
     if order == "reverse":
         rank = ((ns - 1 - step) * nt + (nt - 1 - k)) / max(nt * ns - 1, 1)
@@ -165,7 +177,7 @@ def run_real(case):
 
 def judge(case, out):
     ref = out["ref"]
-    names = ["T%d" % k for k in range(case["towers"])]
+    names = [tname(k) for k in range(case["towers"])]
     exp = [[n, ref[n]] for n in names]
     if out["multitower"] != exp:
         return fail("C14/multitower", "run_bldfm_multitower differs from the individual single runs (content, key order or time order)", None, "equal", diff(exp, out["multitower"]), 0)
